@@ -402,6 +402,50 @@ func runC08(c *Ctx) {
 		sel = append(sel, corpus.Item{Path: it.Path, Rel: it.Rel + "#hostile-strings", Data: b, Type: it.Type, Regime: it.Regime})
 		break
 	}
+	// a large envelope (several hundred lines, canonical form well over 64 KiB): the
+	// digest covers all of it; edits are taken from its tail (the last line and the members behind the lines)
+	for _, it := range sel {
+		if it.Type != "bill/invoice" {
+			continue
+		}
+		n, err := jmut.Parse(it.Data)
+		if err != nil {
+			continue
+		}
+		doc := n.Get("doc")
+		ls := doc.Get("lines")
+		if ls == nil || ls.K != jmut.Arr || len(ls.A) == 0 {
+			continue
+		}
+		first := ls.A[0].Clone()
+		first.Del("i")
+		first.Del("sum")
+		first.Del("total")
+		ls.A = nil
+		for k := 0; k < 300; k++ {
+			l := first.Clone()
+			if it2 := l.Get("item"); it2 != nil && it2.K == jmut.Obj {
+				it2.Set("name", jmut.S(fmt.Sprintf("Item number %d of a long document, described at some length", k+1)))
+			}
+			ls.A = append(ls.A, l)
+		}
+		doc.Del("totals")
+		doc.Del("payment")
+		env, err := gx.ParseEnvelope(n.Bytes())
+		if err != nil {
+			continue
+		}
+		if p, _ := Safely(func() { err = env.Calculate() }); p != nil || err != nil {
+			continue
+		}
+		b, _ := json.Marshal(env)
+		if len(b) < 100_000 {
+			continue
+		}
+		sel = append(sel, corpus.Item{Path: it.Path, Rel: it.Rel + "#large-document", Data: b, Type: it.Type, Regime: it.Regime})
+		c.R.Count("large_documents", 1)
+		break
+	}
 	c.R.Set("envelopes", len(sel))
 
 	type job struct {
@@ -426,7 +470,21 @@ func runC08(c *Ctx) {
 				c.R.Fail("golden-digest-differs-from-reference", fmt.Sprintf("%s: header digest %s, reference canonical form of the document hashes to %s", it.Rel, hd.Get("dig").Get("val").S, rd), it.Rel)
 			}
 		}
+		large := strings.HasSuffix(it.Rel, "#large-document")
 		for _, e := range c08edits(env.Get("doc")) {
+			if large {
+				// the tail only: the last line and the members that sort behind the lines
+				ps := e.path.String()
+				if strings.HasPrefix(ps, "lines[") && !strings.HasPrefix(ps, "lines[299]") {
+					continue
+				}
+				if top := e.path[0].Key; top < "lines" && top != "$addons" {
+					continue // (members that sort in front of the lines sit in the first block of the canonical form, as on any small document)
+				}
+				if ps == "lines" {
+					continue // (whole-array edits of 300 lines: covered on ordinary documents)
+				}
+			}
 			jobs = append(jobs, job{it, env, e})
 		}
 		c.R.Count("docs:"+it.Type, 1)
@@ -652,5 +710,5 @@ func runC08(c *Ctx) {
 			}
 		}
 	})
-	c.Require("recalculated_digests_compared_with_reference", "edits_parsed:alter-negate", "edits_parsed:null-element", "recalculated_through_insert", "detected_with_key:digest", "edits_parsed:alter-float-next", "reused_target_decodes", "cli_verify_runs", "reencodings:shuffle")
+	c.Require("large_documents", "recalculated_digests_compared_with_reference", "edits_parsed:alter-negate", "edits_parsed:null-element", "recalculated_through_insert", "detected_with_key:digest", "edits_parsed:alter-float-next", "reused_target_decodes", "cli_verify_runs", "reencodings:shuffle")
 }
